@@ -828,7 +828,64 @@ def rule_k(ctx):
     ctx.floor(R, 2)
 
 
+def rule_l(ctx):
+    R = "C14.l"
+    ctx.rule(R, "label-wise models pair the i-th mask with the i-th unique label: Masks.__getitem__(k) folded path-wise on a symbolic label image "
+             "returns the mask labels == unique_labels[k] on every path (HeterogeneousModel iterates the masks by counter and applies the "
+             "model of unique_labels[i]); a path that selects by the counter itself mismatches masks and models for label maps that are not 0..n-1")
+    from ..fold import Folder, Obj, Opaque, Raised, Refuse, Sym, fold_paths
+    from ..terms import nf
+
+    m = ctx.model
+    ctx.consult("darsia.utils.masks")
+    k = m.cls("darsia.utils.masks", "Masks")
+    f = m.method(k, "__getitem__")
+    ctx.instance(R)
+
+    def run(decide):
+        so = Obj("self", {"__class__": "Masks", "labels": Obj("labels", {"img": Opaque("ndarray", "LABELS"), "metadata": lambda a, k_: {}}), "unique_labels": Opaque("ndarray", "UNIQUE"),
+                          "num_labels": Opaque("int", "NUM"), "return_label": False})
+        got = {}
+        fo = Folder(symbolic=True)
+        fo.decider = decide
+        fo.func_stack.append(f.node)
+        fo.fold_all_methods = True
+        fo.overrides = {"darsia.Image": lambda a, k_: (got.update(k_), got.setdefault("img", a[0] if a else None), Obj("image", {}))[2],
+                        "darsia.ScalarImage": lambda a, k_: (got.update(k_), got.setdefault("img", a[0] if a else None), Obj("image", {}))[2]}
+        fo.call(f.node, [so, Opaque("int", "K")])
+        return got.get("img")
+    try:
+        paths = fold_paths(run, max_paths=8)
+    except Refuse as e:
+        ctx.ob(R, f.qname, "Masks[k] is labels == unique_labels[k]", False, f"fold of Masks.__getitem__ not found to be possible: {e}", f.node)
+        ctx.floor(R, 1)
+        return
+    want = ("(LABELS == UNIQUE[K])", "(UNIQUE[K] == LABELS)", "np.equal(LABELS, UNIQUE[K])")
+    bad, und = [], []
+    for log, r, err in paths:
+        if err is not None:
+            if not isinstance(err, Raised):
+                und.append(repr(err))
+            continue
+        t = nf(r)
+        if t in want:
+            continue
+        where = " and ".join(("" if b else "not ") + nf(c)[:40] for c, b in log) or "every path"
+        if "LABELS" in t and "UNIQUE" not in t and "K" in t:
+            bad.append(f"on the path {where} the mask is {t[:60]}: selected by the counter itself, not by the k-th unique label")
+        else:
+            und.append(f"mask {t[:60]}")
+    if bad:
+        ctx.ob(R, f.qname, "Masks[k] is labels == unique_labels[k]", False, "; ".join(bad[:2]), f.node, evidence=True)
+    elif und:
+        ctx.ob(R, f.qname, "Masks[k] is labels == unique_labels[k]", False, "mask term not found in a comparable form: " + "; ".join(und[:2]), f.node)
+    else:
+        ctx.ob(R, f.qname, "Masks[k] is labels == unique_labels[k]", True, "", f.node)
+    ctx.floor(R, 1)
+
+
 def run(ctx):
+    rule_l(ctx)
     rule_k(ctx)
     rule_j(ctx)
     rule_i(ctx)
